@@ -371,15 +371,21 @@ fn base_scenarios() -> Vec<(&'static str, Op)> {
             }
             Held::of(owned, (keep, l))
         }),
-        ("recvmsg with SCM_RIGHTS + control_messages (control buffers of CMSG_SPACE, CMSG_LEN and truncating sizes)", |e| {
+        ("recvmsg with SCM_RIGHTS + control_messages (control buffers of CMSG_SPACE, CMSG_LEN and truncating sizes; with and without a credentials message in front)", |e| {
             // the descriptors recvmsg installs are handed to the caller through control_messages(): whatever the
             // kernel installed and the iterator does not report can never be closed
             use rusl::platform::{ControlMessageSend, IoSlice, IoSliceMut, MsgHdrBorrow};
             let mut reported: Vec<i32> = Vec::new();
-            for (nfds, clen) in [(1usize, 24usize), (1, 20), (3, 32), (3, 28), (2, 20), (5, 28), (5, 31), (2, 64), (0, 24)] {
+            // (descriptors sent, control buffer bytes, receiver has SO_PASSCRED set: the kernel puts a credentials
+            // message of 32 bytes in front of the rights message)
+            for (nfds, clen, passcred) in [(1usize, 24usize, false), (1, 20, false), (3, 32, false), (3, 28, false), (2, 20, false), (5, 28, false), (5, 31, false), (2, 64, false), (0, 24, false), (1, 56, true), (3, 64, true), (2, 52, true), (4, 120, true), (0, 56, true)] {
                 let mut sv = [0i32; 2];
                 if unsafe { libc::socketpair(libc::AF_UNIX, libc::SOCK_STREAM | libc::SOCK_CLOEXEC, 0, sv.as_mut_ptr()) } != 0 {
                     continue;
+                }
+                if passcred {
+                    let one: libc::c_int = 1;
+                    unsafe { libc::setsockopt(sv[1], libc::SOL_SOCKET, libc::SO_PASSCRED, (&one as *const libc::c_int).cast(), 4) };
                 }
                 let files: Vec<std::fs::File> = (0..nfds).filter_map(|_| std::fs::File::open(e.root.join("file.txt")).ok()).collect();
                 let fds: Vec<Fd> = files.iter().map(|f| Fd::try_new(std::os::fd::AsRawFd::as_raw_fd(f)).unwrap()).collect();
@@ -388,7 +394,7 @@ fn base_scenarios() -> Vec<(&'static str, Op)> {
                 let snd = MsgHdrBorrow::create_send(None, &io_out, if nfds > 0 { Some(ControlMessageSend::ScmRights(&fds)) } else { None });
                 let sent = rusl::network::sendmsg(Fd::try_new(sv[0]).unwrap(), &snd, 0);
                 if sent.is_ok() {
-                    let mut ctrl = vec![0u64; 8];
+                    let mut ctrl = vec![0u64; 16];
                     let ctrl_bytes: &mut [u8] = unsafe { core::slice::from_raw_parts_mut(ctrl.as_mut_ptr().cast::<u8>(), clen) };
                     let mut space = [0u8; 16];
                     let mut io_in = [IoSliceMut::new(&mut space)];
